@@ -27,6 +27,14 @@ SHAPES = {
                  "graph g1 nin=1", "n 7 lpass in=a0{f7}", "n 8 nested g=0 in=7", "out 8", "endgraph",
                  "graph root", "n 1 lsrc cnt=2{f1}", "n 3 nested g=1 in=1", "n 6 lsink in=3{f6}", "endgraph"],
                 [1, 4, 5, 6, 7]),
+    # dynamically created children: one child graph per key (created on add, stopped on removal or with the map node)
+    "map": (["graph g0 nin=1", "n 4 lpass in=a0{f4}", "n 5 lsink in=4{f5}", "out 4", "endgraph",
+             "graph root", "n 1 dsrc script=1:1=1,2=2;2:1=3;3:-1;4:3=1,1=5", "n 2 map g=0 in=1", "n 3 drec in=2", "n 6 lsrc cnt=2{f6}", "endgraph"],
+            [4, 5, 6]),
+    # one active branch at a time: the old branch is stopped when the key changes
+    "switch": (["graph g0 nin=1", "n 4 lpass in=a0{f4}", "out 4", "endgraph", "graph g1 nin=1", "n 5 lpass in=a0{f5}", "n 7 lsink in=5{f7}", "out 5", "endgraph",
+                "graph root", "n 1 src script=1:1;3:2;4:1", "n 2 lsrc cnt=5{f2}", "n 3 switch in=1,2 cases=1:0,2:1", "n 6 lsink in=3{f6}", "endgraph"],
+               [2, 4, 5, 6, 7]),
 }
 PHASES = ("start", "eval", "stop")
 
@@ -58,7 +66,8 @@ def main():
     rng = random.Random(hg.seed() * 31 + 14)
     cases = []
     for shape, (_, ids) in SHAPES.items():
-        singles = [(i, ph, occ) for i in ids for ph in PHASES for occ in (1, 2)]
+        occs = (1, 2, 3) if shape in ("map", "switch") else (1, 2)
+        singles = [(i, ph, occ) for i in ids for ph in PHASES for occ in occs]
         sets = [()] + [(f,) for f in singles]
         pairs = [(f, g) for f in singles for g in singles if f < g and g[1] == "stop"]   # a second fault while stopping / rolling back
         if chk.tier == "quick":
@@ -93,7 +102,7 @@ def main():
                           "# %s\n# %s\n%s\n" % (name, why, scn))
     chk.notes["scenarios_in_which_a_fault_fired"] = fired
     chk.coverage["exhaustive"] = chk.tier == "thorough"
-    chk.coverage["rule"] = ("shapes flat / fan-out / nested / doubly nested; fault sets: none, every single (node x phase in start/eval/stop x "
+    chk.coverage["rule"] = ("shapes flat / fan-out / nested / doubly nested / map_ with keys added and removed / switch_ with branch changes; fault sets: none, every single (node x phase in start/eval/stop x "
                             "occurrence 1-2), pairs whose second fault is a stop fault (quick: 40 sampled per shape, thorough: all); "
                             "clean-up on error on/off; distinct = distinct scenario text; non-trivial = all (each has a full lifecycle)")
     for name, scn, cleanup, fs in cases[:1] + cases[5:6] + cases[-1:]:
